@@ -32,6 +32,21 @@ func loadPruneWatermark(walDir string) (types.Height, error) {
 	return types.Height(binary.BigEndian.Uint64(data[len(pruneWatermarkHeader):])), nil
 }
 
+// firstLiveHeightFromWatermark returns the first height that has not been pruned according to
+// the watermark file. The file stores the highest pruned height and is written only once
+// something has been pruned, so it is the existence of the file, not its value, that tells
+// "pruned through height 0" from "nothing pruned yet".
+func firstLiveHeightFromWatermark(walDir string) (types.Height, error) {
+	if _, err := os.Stat(pruneWatermarkPath(walDir)); errors.Is(err, os.ErrNotExist) {
+		return 0, nil
+	}
+	prunedUpToHeight, err := loadPruneWatermark(walDir)
+	if err != nil {
+		return 0, err
+	}
+	return prunedUpToHeight + 1, nil
+}
+
 func writePruneWatermark(walDir string, height types.Height) error {
 	const pruneWatermarkFilePerm = 0o644
 
